@@ -17,10 +17,13 @@ import (
 	"os"
 	"sort"
 	"strings"
+	"syscall"
 	"time"
 
 	"github.com/zenon-network/go-zenon/common/types"
 	"github.com/zenon-network/go-zenon/vm/abi"
+	"github.com/zenon-network/go-zenon/vm/embedded"
+	"github.com/zenon-network/go-zenon/vm/vm_context"
 
 	"verifmc/internal/vnode"
 	"verifmc/internal/xs"
@@ -32,11 +35,12 @@ import (
 type bounds struct {
 	ArgValues  int // values per argument (0 = the full domain)
 	Amounts    []string
-	Tokens     []string
+	NTokens    int // token selectors per method (prefix of tokenSelsFor)
 	CapCand    int   // candidates per (base, method, sender) group before send-time filtering
 	CapAcc     []int // accepted sends executed per group, by regime
 	Encodings  []bool
 	Bases      []string
+	BasesFor   func(ri int) []string
 	AllActors  bool
 	Depth2     bool
 	Depth2CapA int
@@ -46,19 +50,40 @@ type bounds struct {
 
 func boundsFor(tier string) bounds {
 	if tier == "thorough" {
-		return bounds{ArgValues: 0, Amounts: amountSels, Tokens: tokenSels, CapCand: 60000, CapAcc: []int{160, 160, 160, 160, 160}, Encodings: []bool{true, true, true, true, true},
-			Bases: []string{"genesis", "entries", "matured"}, AllActors: true, Depth2: true, Depth2CapA: 3, Depth2CapB: 3, Weights: []int{2, 3, 5, 5, 5}}
+		return bounds{ArgValues: 0, Amounts: amountSels, NTokens: len(tokenSels), CapCand: 8192, CapAcc: []int{12, 12, 12, 12, 48}, Encodings: []bool{true, true, true, true, true},
+			Bases: []string{"genesis", "entries", "matured"}, AllActors: true, Depth2: true, Depth2CapA: 2, Depth2CapB: 2, Weights: []int{3, 3, 5, 5, 12}}
 	}
 	// quick: the method code is the same in every regime (only the table lookup and two liquidity branches read the spork
 	// flags), so the all-sporks regime gets the larger cap and the encodings
-	return bounds{ArgValues: 2, Amounts: amountSels[:2], Tokens: tokenSels[:2], CapCand: 1024, CapAcc: []int{2, 2, 2, 2, 4}, Encodings: []bool{false, false, false, false, true},
-		Bases: []string{"genesis", "entries", "matured"}, Weights: []int{2, 3, 5, 5, 9}}
+	return bounds{ArgValues: 2, Amounts: amountSels[:2], NTokens: 2, CapCand: 256, CapAcc: []int{2, 2, 2, 2, 4}, Encodings: []bool{false, false, false, false, true},
+		Bases: []string{"genesis", "entries", "matured"}, Weights: []int{2, 2, 4, 4, 8},
+		BasesFor: func(ri int) []string {
+			if ri == 0 || ri == len(regimes)-1 {
+				return []string{"genesis", "entries", "matured"}
+			}
+			return []string{"entries", "matured"}
+		}}
 }
 
 // senders per contract in the quick tier (thorough: all six)
 func sendersFor(b bounds, c *contractDef, method string) []int {
 	if b.AllActors {
-		return []int{aOwner, aStranger, aAdmin, aPillar, aSpork, aRich}
+		// thorough: the method's relevant senders plus owner and stranger
+		nb := b
+		nb.AllActors = false
+		out := sendersFor(nb, c, method)
+		for _, a := range []int{aOwner, aStranger} {
+			has := false
+			for _, x := range out {
+				if x == a {
+					has = true
+				}
+			}
+			if !has {
+				out = append(out, a)
+			}
+		}
+		return out
 	}
 	switch c.Name {
 	case "pillar":
@@ -142,6 +167,9 @@ type worker struct {
 	item  int
 	snaps map[string]*snapshot
 	avail []methodRef
+
+	vctx     vm_context.AccountVmContext
+	vctxNode *vnode.Node
 }
 
 func (w *worker) mine() bool {
@@ -196,6 +224,12 @@ func (w *worker) buildBases(need map[string]bool) {
 		return
 	}
 	w.snaps["matured"] = p.freeze("matured", env2)
+}
+
+func cpuMs() int64 {
+	var ru syscall.Rusage
+	syscall.Getrusage(syscall.RUSAGE_SELF, &ru)
+	return (ru.Utime.Sec+ru.Stime.Sec)*1000 + int64(ru.Utime.Usec+ru.Stime.Usec)/1000
 }
 
 func product(dims []int) int {
@@ -272,6 +306,8 @@ func errClass(err error) string {
 // runOne executes one accepted call on a scratch copy of the snapshot.
 func (w *worker) runOne(s *snapshot, id *caseID, g *groupStats) *verdict {
 	t0 := time.Now()
+	c0 := cpuMs()
+	defer func() { w.r.Count("cpu_ms_states", cpuMs()-c0) }()
 	pr := s.open(w.c.TempDir(), w.c.TempDir())
 	t1 := time.Now()
 	v := execute(pr, s.Env, id)
@@ -324,8 +360,9 @@ func (w *worker) group(s *snapshot, filter *vnode.Node, mr methodRef, actorIdx i
 			dims[i] = w.b.ArgValues
 		}
 	}
-	full[na], full[na+1] = len(amountSels), len(tokenSels)
-	dims[na], dims[na+1] = len(w.b.Amounts), len(w.b.Tokens)
+	toks := tokenSelsFor(mr.C, m.Name)
+	full[na], full[na+1] = len(amountSels), len(toks)
+	dims[na], dims[na+1] = len(w.b.Amounts), w.b.NTokens
 	tierDims := append([]int{}, dims...)
 	for i := range dims {
 		if dims[i] != full[i] {
@@ -340,18 +377,23 @@ func (w *worker) group(s *snapshot, filter *vnode.Node, mr methodRef, actorIdx i
 	var accepted [][]int
 	t := make([]int, len(dims))
 	mk := func(t []int) *caseID {
-		id := &caseID{Regime: w.ri, Base: s.Name, Contract: mr.C.Name, Method: m.Name, Actor: actorIdx, Args: make([]string, na), Amount: w.b.Amounts[t[na]], Token: w.b.Tokens[t[na+1]]}
+		id := &caseID{Regime: w.ri, Base: s.Name, Contract: mr.C.Name, Method: m.Name, Actor: actorIdx, Args: make([]string, na), Amount: w.b.Amounts[t[na]], Token: toks[t[na+1]]}
 		for i := 0; i < na; i++ {
 			id.Args[i] = doms[i][t[i]].L
 		}
 		return id
 	}
 	tf := time.Now()
+	cf := cpuMs()
 	defer func() { w.r.Count("ms_group_total", time.Since(tf).Milliseconds()) }()
 	for {
 		id := mk(t)
 		g.gen++
-		if _, err := id.submit(env, filter, false); err != nil {
+		if err := w.preValidate(env, filter, id); err != nil {
+			w.r.Count("refused_by_validate_send_block", 1)
+			w.r.Add("send_time_refusals", errClass(err))
+		} else if _, err := id.submit(env, filter, false); err != nil {
+			w.r.Count("refused_by_node", 1)
 			w.r.Add("send_time_refusals", errClass(err))
 		} else {
 			g.acc++
@@ -372,6 +414,7 @@ func (w *worker) group(s *snapshot, filter *vnode.Node, mr methodRef, actorIdx i
 		}
 	}
 	w.r.Count("ms_filter", time.Since(tf).Milliseconds())
+	w.r.Count("cpu_ms_filter", cpuMs()-cf)
 	count := func() int {
 		k := 0
 		for _, a := range accepted {
@@ -472,6 +515,30 @@ func (w *worker) encodings(s *snapshot, filter *vnode.Node, mr methodRef, actorI
 	w.flush(mr.key(), g)
 }
 
+// preValidate runs the implementation's own ValidateSendBlock (the function vm.applySend calls at send time) on the
+// call: a refusal here is the refusal the node would give, without the cost of generating and signing the whole block.
+// Everything it lets through is decided by the real node afterwards.
+func (w *worker) preValidate(env *stateEnv, filter *vnode.Node, id *caseID) (err error) {
+	if w.vctx == nil || w.vctxNode != filter {
+		st := filter.Chain.GetFrontierMomentumStore()
+		fm, ferr := st.GetFrontierMomentum()
+		must(ferr)
+		w.vctx = vm_context.NewAccountContext(st, filter.Chain.GetFrontierAccountStore(actors[aOwner].Key.Address), filter.Cons.FixedPillarReader(fm.Identifier()))
+		w.vctxNode = filter
+	}
+	defer func() {
+		if r := recover(); r != nil {
+			err = nil // let the node decide
+		}
+	}()
+	t := id.template(env, filter)
+	method, merr := embedded.GetEmbeddedMethod(w.vctx, t.ToAddress, t.Data)
+	if merr != nil {
+		return nil
+	}
+	return method.ValidateSendBlock(t)
+}
+
 func (w *worker) filterNode(s *snapshot) *vnode.Node {
 	d := w.c.TempDir()
 	copyDir(s.ProdDir, d)
@@ -491,9 +558,16 @@ func run(c *xs.Ctx, r *xs.Result) {
 		need[b] = true
 	}
 	tb := time.Now()
+	cb := cpuMs()
 	w.buildBases(need)
 	r.Count("ms_bases", time.Since(tb).Milliseconds())
-	for _, bn := range w.b.Bases {
+	r.Count("cpu_ms_bases", cpuMs()-cb)
+	defer func() { r.Count("cpu_ms_total", cpuMs()) }()
+	runBases := w.b.Bases
+	if w.b.BasesFor != nil {
+		runBases = w.b.BasesFor(w.ri)
+	}
+	for _, bn := range runBases {
 		s := w.snaps[bn]
 		if s == nil {
 			continue
@@ -547,7 +621,7 @@ func run(c *xs.Ctx, r *xs.Result) {
 // depth2: accepted call A (applied), then call B to the same contract on the resulting state. Both from the quick-tier
 // product (2 values per argument), capped per (method, sender).
 func (w *worker) depth2(s *snapshot, filter *vnode.Node) {
-	if s.Name != "entries" {
+	if s.Name != "entries" || (w.ri != 0 && w.ri != len(regimes)-1) {
 		return
 	}
 	qb := boundsFor("quick")
@@ -565,14 +639,15 @@ func (w *worker) depth2(s *snapshot, filter *vnode.Node) {
 				dims[i] = qb.ArgValues
 			}
 		}
-		dims[na], dims[na+1] = len(qb.Amounts), len(qb.Tokens)
+		toks := tokenSelsFor(mr.C, m.Name)
+		dims[na], dims[na+1] = len(qb.Amounts), qb.NTokens
 		for product(dims) > 512 {
 			shrink(dims)
 		}
 		var out []*caseID
 		t := make([]int, len(dims))
 		for {
-			id := &caseID{Regime: w.ri, Base: s.Name, Contract: mr.C.Name, Method: m.Name, Actor: actorIdx, Args: make([]string, na), Amount: qb.Amounts[t[na]], Token: qb.Tokens[t[na+1]]}
+			id := &caseID{Regime: w.ri, Base: s.Name, Contract: mr.C.Name, Method: m.Name, Actor: actorIdx, Args: make([]string, na), Amount: qb.Amounts[t[na]], Token: toks[t[na+1]]}
 			for i := 0; i < na; i++ {
 				id.Args[i] = doms[i][t[i]].L
 			}
@@ -775,9 +850,9 @@ func init() {
 		Level: "model_checking",
 		Shards: func(tier string) int {
 			if tier == "thorough" {
-				return 80
+				return 64
 			}
-			return 40
+			return 32
 		},
 		Budget: func(tier string) time.Duration {
 			if tier == "thorough" {
